@@ -2591,7 +2591,7 @@ func getVarDependencies(nod *node, sc *scope) (deps []*node) {
 				// Dependencies also pass through the bodies of the referenced functions.
 				seen[sym.node] = true
 				walk(sym.node.child[3], true)
-			case sym.kind == varSym && sym.global && sym.node != nil && sym.node != nod:
+			case sym.kind == varSym && sym.node != nil && sym.node != nod:
 				deps = append(deps, sym.node)
 			}
 			return false
